@@ -29,6 +29,7 @@ inline Plan Gen(uint64_t seed)
    //               (its G ops are no-ops): every reply -- including one queued before the thread was started -- must produce a wake-up byte
    const int ownloop = cfg.oneIn(3) ? 1 : (((sockets)&&(cfg.oneIn(3))) ? 2 : 0);
    p.push_back("cfg prop=C11 sockets=" + I(sockets) + " ownloop=" + I(ownloop) + " ownersel=" + I(((sockets)&&(cfg.oneIn(3))) ? (1 + (int) cfg.below(2)) : 0) + " extras=" + I(extras) + thrc::SchedCfgStr(cfg)
+               + " closefd0=" + I(((sockets)&&(Rng(seed, "closefd0").oneIn(8))) ? 1 : 0)   // descriptor 0 is free when the Thread creates its socket pair (a process that closed stdin): one signalling socket IS descriptor 0
                + " usersock=" + I(((sockets)&&(Rng(seed, "usersock").oneIn(4))) ? (1 + (int) Rng(seed, "usersock2").below(2)) : 0));   // 1/2: the internal thread also watches a user socket (for write-ready / for exceptions) that never becomes ready
    std::string s = "prog 0";
    const int pre = (int) wl.below(3); if (pre) s += " S" + I(pre);     // queued before the thread is started
@@ -47,7 +48,7 @@ inline Plan Gen(uint64_t seed)
          else s += " Y";
       }
       s += " DRAIN";   // collect every outstanding reply (GN until all have arrived): a lost wake-up shows up here as a deadlock
-      s += wl.oneIn(3) ? " SHUT0 WAIT" : " SHUT1";
+      {const uint32_t sv = wl.below(6); s += (sv < 2) ? " SHUT0 WAIT" : ((sv == 2) ? " S2 SHUT2" : " SHUT1");}   // SHUT2: shut down and join WITHOUT collecting first; what the thread still sent back must be receivable afterwards
    }
    p.push_back(s);
    for (int e=1; e<=extras; e++)
@@ -168,6 +169,7 @@ inline void Exec(const Plan & plan, RunResult & res)
    g_sh = &sh; thr::SetInvariant(NoLostWakeup);
    {
       const bool sockets = (cfg.i("sockets", 1) != 0);
+      if ((sockets)&&(cfg.i("closefd0", 0))) {(void) ::close(0); res.stats.inc("runs_with_descriptor_0_free");}
       EchoThread t(sockets, sockets ? (int) cfg.i("ownloop", 0) : (cfg.i("ownloop", 0) ? 1 : 0), &sh);
       const bool ownerSel = (sockets)&&(cfg.i("ownersel", 0) != 0), strictOwner = (sockets)&&(cfg.i("ownersel", 0) == 2);
       if ((sockets)&&(cfg.i("usersock", 0) > 0)&&(cfg.i("ownloop", 0) != 2)) t.WatchUnreadySocket((int) cfg.i("usersock", 0));
@@ -234,6 +236,17 @@ inline void Exec(const Plan & plan, RunResult & res)
          else if (op == "DRAIN") {if (running) {thr::WaitUntil([&]() {return sh.extrasRunning == 0;}); Drain();}}
          else if (op == "SHUT1") Shutdown(true);
          else if (op == "SHUT0") Shutdown(false);
+         else if (op == "SHUT2")
+         {
+            if (running)
+            {
+               thr::WaitUntil([&]() {return sh.extrasRunning == 0;});
+               sh.armed = false;
+               t.ShutdownInternalThread(true); res.stats.inc("shutdowns"); running = false; sh.threadUp = false;   // every Message queued before the request is handled (and answered) before the thread exits
+               int guard = 0; while((sh.replies.size() < TotalOwed())&&(guard++ < 1000)) {if (!GetReply(0)) break;}   // after the join: the replies are still there to be polled
+               res.stats.inc("p.replies_collected_after_join");
+            }
+         }
          else if (op == "WAIT") {if (running) {(void) t.WaitForInternalThreadToExit(); running = false; sh.threadUp = false;}}
       }
       if (!running) {sh.threadUp = true;}           // release extra senders that never saw the thread start (minimised plans)
